@@ -70,6 +70,16 @@ def truncating_store(dgm):
     return d
 
 
+def truncating_store_named_dtype(dgm, grid):
+    # the caller's dtype asked for by name: an int diagram truncates the float grid
+    d = np.asarray(dgm)
+    grid = np.linspace(0.0, 1.0, 5)
+    out = np.empty(d.shape[:1] + (2,), dtype=d.dtype)
+    out[:, 0] = grid[: d.shape[0]]
+    out[:, 1] = d[:, 0]
+    return out
+
+
 class Holder:
     def __init__(self, values=[]):
         self.values = values
